@@ -5,7 +5,7 @@ use crate::exec::{execute, Outcome};
 use crate::gen::{gen_cfg, gen_delta_ns, gen_header_value, gen_logical, make_case, GenOpts, Overrides, Speller, METHODS};
 use crate::json::J;
 use crate::model::{Ident, Script, SessVal};
-use crate::mon::{judge, mon_returned};
+use crate::mon::{judge, mon_provider_args, mon_returned};
 use crate::prng::{Rng, ALNUM};
 use crate::run::{finish, preflight, Ctx, Report, Tally, Tier};
 
@@ -33,12 +33,17 @@ pub fn gen_identity(r: &mut Rng, script: &mut Script) {
     let m = r.usize_below(5);
     script.session = (0..m)
         .map(|k| {
-            let key = format!("aws:Key{}{}", k, r.string_from(ALNUM, 3));
+            let key = format!("{}Key{}{}", r.pick(&["aws:", "aws:", "sts:", "svc:", "", "x", "AWS:"]), k, r.string_from(ALNUM, 3));
             let v = match r.below(7) {
                 0 => SessVal::Null,
                 1 => SessVal::Bool(r.coin()),
-                2 => SessVal::Int(r.next_u64() as i64),
-                3 => SessVal::Str(r.string_from(ALNUM, 8)),
+                2 => SessVal::Int(*r.pick(&[0i64, -1, i64::MIN, i64::MAX, 1_700_000_000_123])),
+                3 => SessVal::Str(match r.below(5) {
+                    0 => String::new(),
+                    1 => "é 日本 \u{0}".to_string(),
+                    2 => r.string_from(ALNUM, 300),
+                    _ => r.string_from(ALNUM, 8),
+                }),
                 4 => SessVal::Bin(r.bytes(6)),
                 5 => SessVal::Ip4(r.next_u64() as u32),
                 _ => SessVal::Ts(r.range(0, 4_000_000_000)),
@@ -56,6 +61,11 @@ fn shard(seed: u64, shard: u64, n: u64) -> Tally {
         if r.chance(1, 3) {
             cfg.s3 = false;
             cfg.fold = true;
+        }
+        if r.chance(1, 3) {
+            // a service with signed-header requirements (any of the containers): what it returns is still what it got
+            cfg.reqs = crate::props::c05::gen_reqs(&mut r).0;
+            t.count("cases_with_requirement_sets");
         }
         let o = GenOpts {
             max_extra_headers: 6,
@@ -78,7 +88,22 @@ fn shard(seed: u64, shard: u64, n: u64) -> Tally {
             r: &mut sr,
             level: 1,
         };
-        let (mut case, _) = make_case(&l, &cfg, &mut sp, &Overrides::default(), gen_delta_ns(&mut r));
+        // several values for the headers the verifier itself consults (two Host lines, a second token or date line): signed
+        // as they arrive, returned as they arrived
+        let mut ov = Overrides::default();
+        if r.chance(1, 5) {
+            for _ in 0..1 + r.usize_below(2) {
+                match r.below(3) {
+                    0 => ov.more_values.push(("host".to_string(), r.pick_bytes(&[b"second.example", b"", b"h:443"]).to_vec())),
+                    1 => ov.more_values.push(("x-amz-security-token".to_string(), b"second-token".to_vec())),
+                    _ => ov.more_values.push(("x-amz-date".to_string(), l.t.compact().into_bytes())),
+                }
+            }
+            t.count("cases_with_repeated_managed_headers");
+        }
+        let (mut case, _) = make_case(&l, &cfg, &mut sp, &ov, gen_delta_ns(&mut r));
+        case.script.ready_pending = r.below(3) as u8;
+        case.script.ans_pending = r.below(3) as u8;
         case.wire.version = r.below(5) as u8;
         let absolute = r.chance(1, 4);
         if absolute {
@@ -106,6 +131,11 @@ fn shard(seed: u64, shard: u64, n: u64) -> Tally {
             continue;
         };
         if let Some(v) = mon_returned(&case, &rec, &j) {
+            t.violate(v);
+            continue;
+        }
+        // the identity returned is the one the provider gave for the access key, token and scope *of this request*
+        if let Some(v) = mon_provider_args(&case, &rec, &j) {
             t.violate(v);
             continue;
         }
@@ -271,6 +301,8 @@ pub fn run(tier: Tier) -> i32 {
     ctx.gate("accepted, not folded", tally.get("accepted_not_folded"), tier.n(5000, 50_000));
     ctx.gate("HTTP versions seen", (0..5).filter(|v| tally.get(&format!("version/{}", v)) > 0).count() as u64, 5);
     ctx.gate("body types seen (Bytes, Vec<u8>, ())", (0..3).filter(|v| tally.get(&format!("body_kind/{}", v)) > 0).count() as u64, 3);
+    ctx.gate("accepted requests of services with signed-header requirements", tally.get("cases_with_requirement_sets"), tier.n(2_000, 50_000));
+    ctx.gate("requests with several values for Host / X-Amz-Date / token headers", tally.get("cases_with_repeated_managed_headers"), tier.n(1_000, 30_000));
     ctx.gate("methods seen", METHODS.iter().filter(|m| tally.get(&format!("method/{}", m)) > 0).count() as u64, METHODS.len() as u64);
     ctx.gate("principal identity kinds returned", (0..6).filter(|v| tally.get(&format!("principal_kind/{}", v)) > 0).count() as u64, 6);
     ctx.gate("absolute-form URIs", tally.get("absolute_form"), tier.n(1000, 10_000));
